@@ -38,10 +38,10 @@ void h_BIT_STRING_encode_der(void) {
 
 /* malformed BIT STRING (bits_unused outside 0..7) must not trigger undefined behaviour in the encoder */
 void h_BIT_STRING_encode_der_malformed(void) {
-	VF_BYTES(a, 4); VF_SCALAR(size_t, n); VF_SCALAR(int, unused);
-	__CPROVER_assume(n >= 1 && n <= 4);
+	VF_BYTES(a, 4); VF_SCALAR(size_t, n); VF_SCALAR(int, unused); VF_SCALAR(int, nullbuf);
+	__CPROVER_assume(n <= 4);
 	VF_FINDING(VF_FINDING_D13, unused < 0 || unused > 31);
-	BIT_STRING_t sa; memset(&sa, 0, sizeof(sa)); sa.buf = a; sa.size = n; sa.bits_unused = unused;
+	BIT_STRING_t sa; memset(&sa, 0, sizeof(sa)); sa.buf = (n == 0 && nullbuf) ? 0 : a; sa.size = n; sa.bits_unused = unused;   /* incl. the empty string with a non-zero count of unused bits */
 	int key = 0;
 	asn_enc_rval_t ea = BIT_STRING_encode_der(&asn_DEF_BIT_STRING, &sa, 0, 0, vf_cb, &key);
 	VF_CANARY();
